@@ -111,6 +111,47 @@ func corpus() []*Case {
 		c.Services.HTTPStatus = []int{410, 200}
 		out = append(out, c)
 	}
+	// hunt finding 1: a contact field read through the run object (`run.contact` is a documented context path)
+	for i, text := range []string{"You are @run.contact.fields.gender", "You are @(RUN.Contact.Fields[\"gender\"])"} {
+		n := &Node{UUID: b.id(kNode), Actions: []*Action{{Type: "send_msg", UUID: b.id(kAction), Behav: "plain", Extra: map[string]any{},
+			Items: []Item{{Key: "text", Tpl: &TField{Key: "text", Vals: []string{text}, Shape: "string", Localized: true}},
+				{Key: "attachments", Tpl: &TField{Key: "attachments", Vals: []string{}, Shape: "list", Localized: true}},
+				{Key: "quick_replies", Tpl: &TField{Key: "quick_replies", Vals: []string{}, Shape: "list", Localized: true}},
+				{Key: "template", Omitted: true},
+				{Key: "template_variables", Tpl: &TField{Key: "template_variables", Vals: []string{}, Shape: "list", Localized: true}}}}}}
+		n.Exits = []Exit{b.exit("")}
+		c := baseCase(fmt.Sprintf("corpus-run-contact-field-%d", i), mkflow(0, n))
+		c.Contact.Fields["gender"] = "red"
+		out = append(out, c)
+	}
+	// hunt finding 2: open_ticket without topic falls back to the topic named "General"
+	{
+		n := &Node{UUID: b.id(kNode), Actions: []*Action{{Type: "open_ticket", UUID: b.id(kAction), Behav: "saver", ResultName: "Ticket",
+			Items: []Item{{Key: "topic", Omitted: true}, plainTpl("body", "Help"), {Key: "assignee", Omitted: true}}, Extra: map[string]any{}}}}
+		n.Exits = []Exit{b.exit("")}
+		out = append(out, baseCase("corpus-open-ticket-default-topic", mkflow(0, n)))
+	}
+	// hunt finding 3: assets named by an expression-free name_match / email_match / legacy_vars value
+	{
+		n := &Node{UUID: b.id(kNode), Actions: []*Action{
+			{Type: "add_contact_groups", UUID: b.id(kAction), Behav: "plain", Extra: map[string]any{},
+				Items: []Item{{Key: "groups", IsRefs: true, Refs: []Ref{{Kind: "group", Match: "Group 1"}}}}},
+			{Type: "add_input_labels", UUID: b.id(kAction), Behav: "plain", Extra: map[string]any{},
+				Items: []Item{{Key: "labels", IsRefs: true, Refs: []Ref{{Kind: "label", Match: "label 0"}}}}},
+			{Type: "open_ticket", UUID: b.id(kAction), Behav: "saver", ResultName: "Ticket", Extra: map[string]any{},
+				Items: []Item{{Key: "topic", Ref: &topic}, plainTpl("body", "Help"), {Key: "assignee", Ref: &Ref{Kind: "user", Match: "bob@acme.io"}}}},
+			{Type: "send_broadcast", UUID: b.id(kAction), Behav: "plain", Extra: map[string]any{},
+				Items: []Item{{Key: "groups", IsRefs: true, Refs: []Ref{}}, {Key: "contacts", IsRefs: true, Refs: []Ref{}},
+					plainTpl("contact_query", ""), {Key: "legacy_vars", Tpl: &TField{Key: "legacy_vars", Vals: []string{" Group 2 "}, Shape: "list"}},
+					{Key: "text", Tpl: &TField{Key: "text", Vals: []string{"Hi all"}, Shape: "string", Localized: true}},
+					{Key: "attachments", Tpl: &TField{Key: "attachments", Vals: []string{}, Shape: "list", Localized: true}},
+					{Key: "quick_replies", Tpl: &TField{Key: "quick_replies", Vals: []string{}, Shape: "list", Localized: true}}}},
+		}}
+		n.Exits = []Exit{b.exit("")}
+		c := baseCase("corpus-assets-named-by-literal", mkflow(0, n))
+		c.Trigger, c.TrigText = "msg", "hello"
+		out = append(out, c)
+	}
 	// references that exist ONLY in a translation of a localized+evaluated member whose base value is empty,
 	// run for a contact in the translation language
 	for _, member := range []string{"quick_replies", "attachments", "template_variables"} {
